@@ -150,13 +150,11 @@ def c04_s(ctx):
             eb = ExprBuilder(ctx.prog, f, user_stop=True)
             e = eb.rvalue(s["rv"])
             key = "%s:%s" % (f.name, field)
-            mfin = re.match(r"^(\w+)\." + field.split(".")[1] + "$", e[1]) if e[0] == "place" else None
-            if mfin:
-                # the variable must be the payload of the received Finished PDU
-                src = eb.var_defs(mfin.group(1))
-                if src and all("@Finished.0" in expr_str(x) for x in src):
-                    yield ok("C04-S", key, at(f, s["span"]["line"]), "%s <- %s (Finished PDU field)" % (field, expr_str(e)))
-                    continue
+            from common import bound_pdu_field
+            if e[0] == "place" and bound_pdu_field(eb, e, "@Finished.0", field.split(".")[1]) is not None:
+                # the variable must be (a field of) the payload of the received Finished PDU
+                yield ok("C04-S", key, at(f, s["span"]["line"]), "%s <- %s (Finished PDU field)" % (field, expr_str(e)))
+                continue
             yield bad("C04-S", key, at(f, s["span"]["line"]), "%s written from %s, not from the received Finished PDU" % (field, expr_str(e)))
     # struct literal in `new`: defaults
     for f, b, j, s in agg_sites(fns, "SendTransaction"):
@@ -1321,8 +1319,9 @@ def c13_q3(ctx):
         v = dict(zip(e[4], e[5])).get("filestore_responses")
         txt = expr_str(v) if v else "?"
         key = "%s:FinishedIndication.filestore_responses" % f.name
-        mfin = re.match(r"^(\w+)\.filestore_response$", txt)
-        if mfin and eb.var_defs(mfin.group(1)) and all("@Finished.0" in expr_str(x) for x in eb.var_defs(mfin.group(1))):
+        from common import bound_pdu_field
+        mfin = bound_pdu_field(eb, v, "@Finished.0", "filestore_response") if v is not None and re.match(r"^[\w.]+$", txt) else None
+        if mfin:
             yield ok("C13-Q3", key, at(f, s["span"]["line"]), txt)
         elif "self." not in txt and not re.search(r"\.filestore_response", txt) and re.search(r"(Vec::new\(\)|into_vec|box_assume_init_into_vec_unsafe|vec::from_elem)", txt):
             yield ok("C13-Q3", key, at(f, s["span"]["line"]), "an end without a Finished PDU (unacknowledged, no closure) reports an empty response list: " + txt[:80])
@@ -1551,10 +1550,10 @@ def c04_s2(ctx):
         e = eb.rvalue(s["rv"])
         fl = dict(zip(e[4], e[5]))
         resp = expr_str(fl.get("filestore_responses")) if fl.get("filestore_responses") else ""
-        m = re.match(r"^(\w+)\.filestore_response$", resp)
-        if not m or not eb.var_defs(m.group(1)) or not all("@Finished.0" in expr_str(x) for x in eb.var_defs(m.group(1))):
+        from common import bound_pdu_field
+        pduvar = bound_pdu_field(eb, fl.get("filestore_responses"), "@Finished.0", "filestore_response") if fl.get("filestore_responses") is not None else None
+        if pduvar is None:
             continue  # an end without a Finished PDU
-        pduvar = m.group(1)
         n += 1
         key = "%s:FinishedIndication.report" % f.name + ("#%d" % n if n > 1 else "")
         rep = fl.get("report")
@@ -1578,7 +1577,7 @@ def c04_s2(ctx):
         for _f, wb, wj, ws, ps in field_writes([f], "self.condition"):
             if wj < 0 or ps != "self.condition":
                 continue
-            if expr_str(simp(eb.rvalue(ws["rv"]))) == "%s.condition" % pduvar:
+            if expr_str(simp(eb.rvalue(ws["rv"]))) == "%s.condition" % pduvar or bound_pdu_field(eb, eb.rvalue(ws["rv"]), "@Finished.0", "condition") is not None:
                 writes.append((wb, wj))
         if any(wb in dom.get(gb, ()) and wb != gb for wb, wj in writes) or any(wb == gb for wb, wj in writes):
             yield ok("C04-S2", key, at(f, s["span"]["line"]), "self.condition <- %s.condition dominates generate_report()" % pduvar)
@@ -1888,13 +1887,11 @@ def c10_k10(ctx):
         for f2, b, j, s_, ps in field_writes([f], "self.condition"):
             if j < 0:
                 continue
-            mc = re.match(r"^(\w+)\.condition$", expr_str(eb.rvalue(s_["rv"])))
-            if not mc:
+            from common import bound_pdu_field
+            pv = bound_pdu_field(eb, eb.rvalue(s_["rv"]), payload, "condition")
+            if pv is None:
                 continue
-            ds = eb.var_defs(mc.group(1))
-            if not ds or not all(payload in expr_str(x) for x in ds):
-                continue
-            by_var.setdefault(mc.group(1), set()).add(b)
+            by_var.setdefault(pv, set()).add(b)
         for var, ablocks in sorted(by_var.items()):
             ls = [l for vn, l, pj in f.var_places if vn == var and not pj]
             binds = [d[1] for l in ls for d in f.defs(l) if d[0] == "assign"]
